@@ -207,6 +207,8 @@ def gen(ctx, seed, tier):
     for k in ["R", "D", "LR", "LD", "LX", "F", "S", "C", "M"]:
         for size in ([0, 1, 4096, 4097, 100000] if k in ("R", "LR") else [0]):
             cases.append("T %s %d" % (k, size))
+    if seed == ctx.seed:
+        cases += ["N " + x for x in CANON_PATHS]
     # R/RL: real directory listings (the kernel's order; both sides sort)
     names = ["a", "b", "sub/", ".hidden", "..x", "...", "x.y", "UPPER", "z/", ".d/", "long-name-with-many-characters.txt",
              "..data", "a%20b", "%20lead", ".%20", "..%20", "..a/", "....", ".a.b"]
@@ -243,8 +245,27 @@ def run_impl(ctx, cases):
     return out
 
 
+CANON_PATHS = ["/", "//", "///", "/.", "/..", "/../..", "/tmp/..", "/tmp/../", ".", "..", "./", "d", "d/", "d/.", "d/..", "d/../..",
+               "d/sub/../..", "d/sub/../../..", "l", "l/", "l/sub", "l/sub/..", "l/..", "lroot", "lroot/", "lroot/tmp", "lroot/.",
+               "lroot/..", "ldang", "ldang/", "f", "f/", "f/.", "lf", "lf/", "nope", "nope/..", "d//sub///", "-", "d/sub/.",
+               "/tmp", "/tmp/", "/tmp/.", "/proc/self/cwd", "/proc/self/cwd/d"]
+
+
 def run_model(ctx, cases):
-    return ctx.run_model("drv_c15", cases, timeout=1500)
+    # N cases: zix_canonical_path is outside the Coq models; its oracle is realpath(3), evaluated by the C driver on the
+    # same path, so the expected line is a constant
+    rest = [c for c in cases if not c.startswith("N ")]
+    ms, ss = ctx.run_model("drv_c15", rest, timeout=1500) if rest else ([], [])
+    ms, ss = iter(ms), iter(ss)
+    M, S = [], []
+    for c in cases:
+        if c.startswith("N "):
+            M.append("canon= agrees fds= 0 leak= 0")
+            S.append("canon= agrees fds= 0 leak= 0")
+        else:
+            M.append(next(ms))
+            S.append(next(ss))
+    return M, S
 
 
 def l1_extra(case, impl_obs):
